@@ -55,6 +55,9 @@ func (w *c08W) Write(p []byte) (int, error) {
 	w.mu.Lock()
 	w.recs = append(w.recs, cp)
 	w.mu.Unlock()
+	if w.id > 0 && w.id%3 == 2 { // every third destination of a stress run takes the record whole and reports one byte less (a line sink that does not count the line feed)
+		return len(p) - 1, nil
+	}
 	return len(p), nil
 }
 
